@@ -29,6 +29,15 @@ Proof. intros U s G n Hn. now destruct (g_td U s G n Hn). Qed.
 Lemma node_locked_td : forall s n, n_flag n <> None -> node_locked s n = flag_locked n.
 Proof. intros s n H. unfold node_locked, flag_locked. destruct (n_flag n); [reflexivity|contradiction]. Qed.
 
+Lemma cache_active_td : forall s n, n_flag n <> None -> cache_active s n = flag_locked n.
+Proof.
+  intros s n H. unfold cache_active. rewrite (node_locked_td s n H). destruct (n_flag n); [|contradiction].
+  now rewrite orb_true_r, andb_true_r.
+Qed.
+
+Lemma cache_active_locked : forall s n, cache_active s n = true -> node_locked s n = true.
+Proof. intros s n H. unfold cache_active in H. now apply andb_prop in H. Qed.
+
 (* ---------------------------------------------------------------- finding nodes *)
 Lemma find_node_in : forall s p n, find_node s p = Some n -> In n (nodes s) /\ n_path n = p.
 Proof.
